@@ -39,6 +39,30 @@ def run(tier):
     mc = [{'name': 'DataFraming (content framing across the hop)', 'module': 'MC_DataFraming',
            'cfg': flow.write_cfg(wd, 'df.cfg', MC_CFG % (4 if tier == 'quick' else 6))},
           {'name': 'SmtpServer graph (receiving side)', 'module': 'SmtpServer', 'cfg': 'SmtpServer.cfg'}]
+    HOP_CFG = """SPECIFICATION HopSpec
+CONSTANTS
+  NRcpt = %d
+  Lmtp = FALSE
+  Pipelining = %s
+  NMsg = %d
+  KF_FlushOutside = FALSE
+  KF_FirstRcptClass = FALSE
+  KF_RsetBypass = FALSE
+  KF_RcptBeforeMail = %s
+INVARIANT C06_SenderVerdict
+INVARIANT C06_RecipientVerdict
+INVARIANT C06_ContentVerdict
+INVARIANT C06_CustodyIffDelivered
+INVARIANT C06_NoDanglingData
+INVARIANT C11_TotalResult
+INVARIANT C14_Bounded
+CHECK_DEADLOCK FALSE
+"""
+    for nr, pipe, nmsg in ((2, 'TRUE', 1), (2, 'FALSE', 1), (2, 'TRUE', 2)) + (((3, 'TRUE', 2), (3, 'FALSE', 2)) if tier != 'quick' else ()):
+        mc.append({'name': 'Hop: relay client x edge, %d recipients, PIPELINING %s, %d message(s) per connection: the edge\'s verdict is the relay\'s result' % (nr, pipe, nmsg),
+                   'module': 'Hop', 'cfg': flow.write_cfg(wd, 'hop_%d_%s_%d.cfg' % (nr, pipe, nmsg), HOP_CFG % (nr, pipe, nmsg, 'FALSE'))})
+    mc.append({'name': 'deviation KF_RcptBeforeMail (seeded change C06c-m2) on the hop: TLC must find the refused sender reported as a refused recipient',
+               'module': 'Hop', 'cfg': flow.write_cfg(wd, 'hop_kf.cfg', HOP_CFG % (2, 'TRUE', 1, 'TRUE')), 'expect_violation': ['C06_SenderVerdict']})
     return flow.standard(
         'C06', tier, mc, 'c06', 'Trace_Hop', 'Trace_Hop.cfg', [canary_rcpt, canary_content, canary_result],
         level='exploration',
